@@ -4,3 +4,9 @@ CHECKS['C02'] = dict(
     technique='bounded-exhaustive construction LTS over a surface alphabet (all words to depth 3) driven through the real add_surface/trace API, per-surface transition oracle = independent vector-Snell/sag reference model',
     text='Every lens that is a word of length <=3 over a 14-symbol surface alphabet (all six shape classes, refracting/reflecting, decentred/tilted, ideal/catalogue media; 4 numeric variants), plus the 24 sample designs, is built through the public API and traced (25-point fans x 4 fields x 2 wavelengths, steep 35 degree fields and every named distribution on short words). For every surface transition of every ray the recorded point/direction/path is compared with an independent reference step (own frame matrices, own sag formulas, complex-step normals, vector Snell, forward-intersection existence). Complete within the stated bounds; says nothing about values between the menu points.',
     note='Trusted: reference geometry in vmc/ref (frame convention global = o + Rx Ry Rz local), catalogue indices (checked by C18), numpy. Sample designs take their rows from the built lens (no independent spec).')
+
+CHECKS['C04'] = dict(
+    design_ref='DESIGN.md section 3, C04',
+    technique='bounded-exhaustive construction LTS (words over an axially symmetric surface alphabet x every stop position) x full configuration menu, every paraxial query compared with an independent signed-index y-nu / ABCD reference model',
+    text='Every word of length <=2 over 10 symmetric symbols (+ length 3 over 6; thorough: <=3 and 4) with the stop on every surface, crossed with 14 valid (object distance, aperture kind, field kind) configurations, plus the 24 samples: f1,f2,F1,F2,P1,P2,N1,N2,EPL,EPD,XPL,XPD,FNO,magnification, marginal and chief ray arrays, invariant() against the reference; Lagrange invariant constant over the returned arrays; linearity of _trace_generic on a basis. Complete within these bounds.',
+    note='Trusted: vmc/ref/abcd.py (signed indices, f2=-1/u_k, F1 from first vertex, F2/XPL from image), sign convention of the paraxial chief ray for height fields (object point at -field). Exactly afocal / telecentric-pupil states are skipped and counted.')
